@@ -78,6 +78,18 @@ func fieldEvents(fn *ssa.Function, targets map[ssa.Value]bool) map[string][]fiel
 			case ssa.CallInstruction:
 				cc := x.Common()
 				sc := cc.StaticCallee()
+				// the target handed to an in-package helper: what the helper
+				// re-establishes on every one of its paths counts at the call
+				if sc != nil && sc.Pkg == fn.Pkg && sc.Blocks != nil && !sanitiserNames[sc.Name()] && fieldEventsDepth < 2 {
+					for ai, a := range cc.Args {
+						if !targets[a] || ai >= len(sc.Params) {
+							continue
+						}
+						for _, name := range mustEstablish(sc, ai) {
+							out[name] = append(out[name], fieldEvent{"store", ins, nil})
+						}
+					}
+				}
 				if sc == nil || len(cc.Args) == 0 || !sanitiserNames[sc.Name()] {
 					continue
 				}
@@ -93,6 +105,43 @@ func fieldEvents(fn *ssa.Function, targets map[ssa.Value]bool) map[string][]fiel
 			}
 		}
 	}
+	return out
+}
+
+var fieldEventsDepth = 0
+
+// mustEstablish: the fields of parameter pi's object that fn stores (or
+// resets) on every path from its entry to each of its returns.
+func mustEstablish(fn *ssa.Function, pi int) []string {
+	fieldEventsDepth++
+	defer func() { fieldEventsDepth-- }()
+	ev := fieldEvents(fn, targetsOf(fn, pi))
+	var out []string
+	for name, evs := range ev {
+		via := map[*ssa.BasicBlock]bool{}
+		for _, e := range evs {
+			if e.kind == "elem-store" {
+				continue
+			}
+			via[e.ins.Block()] = true
+		}
+		if len(via) == 0 {
+			continue
+		}
+		all, nret := true, 0
+		for _, b := range fn.Blocks {
+			if _, ok := b.Instrs[len(b.Instrs)-1].(*ssa.Return); ok {
+				nret++
+				if !coveredOnAllPaths(fn, via, b) {
+					all = false
+				}
+			}
+		}
+		if all && nret > 0 {
+			out = append(out, name)
+		}
+	}
+	sort.Strings(out)
 	return out
 }
 
@@ -384,33 +433,45 @@ func init() {
 			fn := c.MustFn("(*Segment).visitDocumentFieldTerms")
 			key := "(*Segment).visitDocumentFieldTerms/segment-guard"
 			okGuard := false
-			for _, b := range fn.Blocks {
-				ifi, ok := b.Instrs[len(b.Instrs)-1].(*ssa.If)
-				if !ok {
-					continue
+			// the guard sits in the function itself or in a helper method of the
+			// same segment that it hands the visit state to
+			guardFns := []*ssa.Function{fn}
+			for _, callee := range staticCallees(fn) {
+				if c.inRoot(callee) && callee.Blocks != nil && callee.Signature.Recv() != nil && len(callee.Params) > 0 && types.Identical(callee.Params[0].Type(), fn.Params[0].Type()) {
+					guardFns = append(guardFns, callee)
 				}
-				bin, ok := ifi.Cond.(*ssa.BinOp)
-				if !ok || bin.Op != token.NEQ {
-					continue
-				}
-				ld, ok := bin.X.(*ssa.UnOp)
-				if !ok || !strings.HasSuffix(accessPath(ld.X), "dvs.segment") || bin.Y != ssa.Value(fn.Params[0]) {
-					continue
-				}
-				tb := b.Succs[0]
-				setsSeg, clearsMap := false, false
-				for _, ins := range tb.Instrs {
-					if st, ok := ins.(*ssa.Store); ok {
-						ap := accessPath(st.Addr)
-						if strings.HasSuffix(ap, "dvs.segment") && st.Val == ssa.Value(fn.Params[0]) {
-							setsSeg = true
-						}
-						if strings.HasSuffix(ap, "dvs.dvrs") && isNilConst(st.Val) {
-							clearsMap = true
+			}
+			for _, gf := range guardFns {
+				for _, b := range gf.Blocks {
+					ifi, ok := b.Instrs[len(b.Instrs)-1].(*ssa.If)
+					if !ok {
+						continue
+					}
+					bin, ok := ifi.Cond.(*ssa.BinOp)
+					if !ok || bin.Op != token.NEQ {
+						continue
+					}
+					ld, ok := bin.X.(*ssa.UnOp)
+					if !ok || !strings.HasSuffix(accessPath(ld.X), ".segment") || bin.Y != ssa.Value(gf.Params[0]) {
+						continue
+					}
+					tb := b.Succs[0]
+					setsSeg, clearsMap := false, false
+					for _, ins := range tb.Instrs {
+						if st, ok := ins.(*ssa.Store); ok {
+							ap := accessPath(st.Addr)
+							if strings.HasSuffix(ap, ".segment") && st.Val == ssa.Value(gf.Params[0]) {
+								setsSeg = true
+							}
+							if strings.HasSuffix(ap, ".dvrs") && isNilConst(st.Val) {
+								clearsMap = true
+							}
 						}
 					}
+					if setsSeg && clearsMap {
+						okGuard = true
+					}
 				}
-				okGuard = setsSeg && clearsMap
 			}
 			if okGuard {
 				r.ok(key, fnName(fn), c.pos(fn.Pos()), "dvs.segment != s resets the cloned readers and records the new segment")
@@ -567,7 +628,7 @@ func init() {
 
 	register(&Rule{
 		Name:  "ESCAPE-FRESH",
-		Floor: 4,
+		Floor: 3,
 		Doc:   "every field of the pooled builder state whose value escapes into the returned Segment (arguments of initSegmentBase) is re-established by nil or a fresh allocation — never by truncating or clearing in place — and the segment's bytes come from a function-local buffer: a later build cannot alias an earlier segment",
 		Run: func(c *Ctx, scope string, r *Report) {
 			isb := c.MustFn("initSegmentBase")
